@@ -10,7 +10,7 @@ from rnaverif.runner import D, HarnessError, ShardResult, check_case, run_hypoth
 PROP_ID = "C01"
 LEVEL = "exploration"
 RULE = (
-    "Domains: (a) every partial matching on 1..n for all n<=N (exhaustive; N=8 quick, N=11 thorough); "
+    "Domains: (a) every partial matching on 1..n for all n<=N (exhaustive; N=9 quick, N=11 thorough); "
     "(b) Hypothesis blow-ups: abstract matching of <=8 (quick) / <=12 (thorough) pairs in any crossing pattern, "
     "each expanded into a stem of 1-6 pairs with unpaired runs of 0-5; (c) ladders of k=1..30 mutually crossing "
     "stems; (d) balanced dot-bracket strings over up to 30 bracket types, built by construction. For every "
@@ -191,8 +191,8 @@ def classify_string(case):
 def plan(tier, seed):
     specs = []
     if tier == "quick":
-        N, K = 8, 8
-        hyp = [("blowup", 60, 8)] * 6 + [("string", 80, 0)] * 4
+        N, K = 9, 16
+        hyp = [("blowup", 150, 8)] * 16 + [("string", 150, 0)] * 8
         ladders = list(range(1, 31))
     else:
         N, K = 11, 64
